@@ -205,8 +205,14 @@ def c03(res, st, std_coq, lexer_correspondence):
     def fail(h, why):
         res.violation("lexer: " + why, {"kind": "lex-c03", "input_hex": h, "why": why})
     # lexer model (both modes) vs Lexer: outcome class and error range, exhaustive short strings + samples
-    lexer_correspondence(res, "p", "c03", "-", "C03 lexer, panic mode (outcome, error range)", fail, exh_len=4 if q else 5)
-    lexer_correspondence(res, "np", "c03", "-", "C03 lexer, recovery mode (never fails)", fail, exh_len=4 if q else 5)
+    for mode, label in (("p", "C03 lexer, panic mode (outcome, error range)"), ("np", "C03 lexer, recovery mode (never fails)")):
+        mism, _ = lexer_correspondence(res, mode, "c03", "-", label, fail, exh_len=4 if q else 5)
+        seen = set()
+        for (h, x, y) in mism:
+            # the real lexer died with a runtime panic, looped or did not return: that input is a failing input of C03
+            if h not in seen and any(k in x for k in ("CRASH", "LOOP", "TIMEOUT")):
+                seen.add(h)
+                fail(h, "the lexer %s on this input (%s mode)" % ("does not terminate" if "TIMEOUT" in x or "LOOP" in x else "panics with a runtime error", "recovery" if mode == "np" else "public"))
     # the property on the implementation: arbitrary byte strings, malformed first token, malformed token after ';', truncated escapes
     cases = gens.parser_cases(rnd, 2500 if q else 50000, 1500 if q else 30000, 200 if q else 4000)
     bad_tokens = [b"1a", b"'abc", b'"\\x', b"`", b"``", b"\x00", b"/*", b"0x", b"'\\u12", b"'" * 3 + b"a", b"b'\\xA", b"\xff", b"@", b"'\\400'", b"r'", b"$",
@@ -294,6 +300,11 @@ def c09(res, st, std_coq):
         cases.append((rnd.choice(entries), gens.random_bytes(rnd, rnd.randrange(0, 20))))
     cases += gens.systematic_cases(valid_only=False)
     cases += [(e, s) for s in gens.regression("C09") for e in ("ParseStatement", "ParseExpr", "ParseDDL")]
+    # many recovered failures in ONE input: every Bad node needs its error, however many there are
+    for n in ((3, 101, 150) if q else (3, 101, 150, 1000)):
+        cases += [("ParseExpr", b"[" + b"(+), " * n + b"(+)]"), ("ParseQuery", b"SELECT " + b"1 +, " * n + b"1 + FROM t"),
+                  ("ParseDDLs", b"CREATE TABLE;\n" * n), ("ParseStatements", b"SELECT 1 +;\n" * n), ("ParseDMLs", b"DELETE FROM;\n" * n),
+                  ("ParseExpr", b"f(" + b"CAST(1 AS x y), " * n + b"1)")]
     report_oracle(res, "C09", cases, "error contract violated")
     res.add_cases(len(cases), len(set(cases)), [gens.case_lines(cases[:1]).strip()[:200], gens.case_lines(cases[-1:]).strip()[:200]])
     res.cov["rule"] = ("theorems on the trace model + syntactic obligations on the regenerated summary + escape theorem; implementation: corpus, "
@@ -597,10 +608,12 @@ def c07(res, st, std_coq):
     rnd = random.Random(res.seed)
     gen_check(res, ("printer_ok",))
     q = res.tier == "quick"
-    cases = gens.precedence_cases(rnd, 3 if q else 4, 4000 if q else 100000)
+    # all trees with <= 3 operators in both spellings in both tiers (the 4-operator enumeration is tens of millions of strings and
+    # needed > 30 GB here); the thorough tier adds 400 000 random deeper trees instead
+    cases = gens.precedence_cases(rnd, 3, 4000 if q else 400000)
     inputs = [x for x, _ in cases]
     # (1) the model is the code: fragment parser vs ParseExpr on the property's enumeration and on arbitrary fragment-ish inputs
-    frag_correspondence(res, inputs, "operator trees (<= %d operators, minimal and full spelling) + random deeper trees" % (3 if q else 4))
+    frag_correspondence(res, inputs, "operator trees (<= 3 operators, minimal and full spelling) + random deeper trees")
     frag_correspondence(res, frag_inputs(rnd, q), "random/mutated fragment expressions, near-miss inputs, token soups")
     # (2) the property on the implementation: grouping = the table's grouping; SQL() adds and drops no parenthesis
     out = vlib.run_lines(vlib.HARNESS, ["expr-shape"], "\n".join(hexs(x) for x in inputs) + "\n")
@@ -625,7 +638,7 @@ def c07(res, st, std_coq):
                        "in the spelling with minimal parentheses (by the table) and with a parenthesis around every operand, plus random deeper trees; for each: "
                        "(i) ParseExpr's tree compared with the extracted Coq fragment parser run on the real lexer's tokens, (ii) ParseExpr's grouping compared "
                        "with the grouping the table prescribes (computed by the generator, independent of parser.go), (iii) SQL() keeps the number of "
-                       "parentheses; distinct = distinct inputs" % (3 if q else 4))
+                       "parentheses; distinct = distinct inputs" % 3)
     res.assumptions += ["the round-trip theorem covers binary/unary/NOT operators, the whole comparison family (incl. IS, IN, BETWEEN, LIKE), parentheses and primaries; field access, subscript, "
                         "tuples are in the executable model and its correspondence but not yet in the theorem (C07_..._partial in DESIGN.md)",
                         "tokens are taken from the real lexer (lexer conformance is C13/C14); spell/lexer agreement is sampled by (ii)"]
